@@ -405,6 +405,76 @@ VP_TARGET("archive_longdouble", archive_longdouble_target,
           "long double through archive.h (its own dump/load overloads): sequences, pair, vector and tuple with an int32 behind — encoded size = sizeof(long double) per "
           "value, values round-trip (the 10 significant bytes), the value that follows decodes correctly and every byte is consumed");
 
+// The writer bound to a string that already has content (a frame header, earlier records) appends behind it, and
+// archive::data<T> — the raw-array helper — encodes n elements as their n * sizeof(T) native bytes whether it was built
+// from a pointer to const or to non-const elements; an int32 follows to show the next value stays in place.
+template <class T> static void raw_array_case(Src &s, Case &c, const char *tn)
+{
+    size_t n = (size_t)s.range(0, 12);
+    std::vector<T> xs(n);
+    xs.reserve(n + 1); // data() is a real address for the empty array too (a null pointer with a count of 0 is the caller's business)
+    for (auto &x : xs)
+        x = (T)s.biased_int<int32_t>();
+    std::string prefix;
+    for (size_t i = 0, k = (size_t)s.below(5); i < k; i++)
+        prefix += (char)s.u8();
+    int32_t tail = s.biased_int<int32_t>();
+    bool from_const = s.coin();
+    c.log("data<%s> of %zu elements built from a %s pointer, writer bound to a string of %zu bytes", tn, n, from_const ? "const" : "non-const", prefix.size());
+    c.label(from_const ? "data_from_const_pointer" : "data_from_pointer");
+    if (!prefix.empty())
+        c.label("writer_on_non_empty_string");
+    c.nontrivial = n > 0 && sizeof(T) > 1;
+    std::string out = prefix;
+    {
+        igris::archive::binary_string_writer w(out);
+        if (from_const)
+        {
+            const T *cp = xs.data();
+            igris::archive::data<T> d(cp, n);
+            igris::serialize(w, d);
+        }
+        else
+        {
+            igris::archive::data<T> d(xs.data(), n);
+            igris::serialize(w, d);
+        }
+        igris::serialize(w, tail);
+    }
+    std::string want = prefix + std::string((const char *)xs.data(), n * sizeof(T)) + std::string((const char *)&tail, 4);
+    VP_CHECK(out == want, "archive_raw_bytes", "data<%s> x %zu + int32 behind a %zu-byte prefix: the string holds %s, want %s", tn, n, prefix.size(), hexs(out).c_str(),
+             hexs(want).c_str());
+    // decode
+    std::string enc = out.substr(prefix.size());
+    Exact blk(enc.data(), enc.size());
+    igris::archive::binary_buffer_reader rd(blk.c(), blk.n);
+    std::vector<T> ys(n, (T)0x55);
+    ys.reserve(n + 1);
+    igris::archive::data<T> dd(ys.data(), n);
+    igris::deserialize(rd, dd);
+    int32_t t2 = ~tail;
+    igris::deserialize(rd, t2);
+    VP_CHECK(ys == xs && t2 == tail && (size_t)(rd.ptr - blk.c()) == enc.size(), "archive_raw_roundtrip", "data<%s> x %zu decodes wrongly or the int32 behind it reads %d (want %d); %td of %zu bytes consumed",
+             tn, n, t2, tail, rd.ptr - blk.c(), enc.size());
+}
+static void archive_raw_target(Src &s, Case &c)
+{
+    switch (s.below(4))
+    {
+    case 0:
+        return raw_array_case<uint8_t>(s, c, "uint8");
+    case 1:
+        return raw_array_case<int16_t>(s, c, "int16");
+    case 2:
+        return raw_array_case<int32_t>(s, c, "int32");
+    default:
+        return raw_array_case<int64_t>(s, c, "int64");
+    }
+}
+VP_TARGET("archive_raw", archive_raw_target,
+          "archive::data<T> (raw arrays of 0..12 uint8 / int16 / int32 / int64, built from a const or a non-const pointer) written by a binary_string_writer bound to a string that "
+          "already holds 0..4 bytes, an int32 behind: the string = prefix + native bytes + int32, and the array and the int32 decode back; non-trivial = a non-empty array of a multi-byte type");
+
 static void archive_defaults_target(Src &s, Case &c)
 {
     if (s.coin())
